@@ -1,13 +1,19 @@
 #!/bin/bash
-# Offline setup: warm the Go build cache by building every check binary once.
+# Offline setup: build the instrumenter and warm the Go build cache by building every check once.
 . /verif/env.sh
 mkdir -p /verif/bin /verif/.work /verif/evidence /verif/replays
+( cd /verif/tools/goinstr && go build -o /verif/bin/goinstr . ) || exit 1
 /verif/tools/gen_bk.sh || exit 1
-python3 /verif/tools/mkoverlay.py /verif/.work/overlay.json || exit 1
-cd /repo || exit 1
 for d in /verif/src/cmd/*/; do
   n=$(basename $d)
-  [ -x $d/prebuild.sh ] && $d/prebuild.sh quick
-  go build -tags verif -overlay /verif/.work/overlay.json -o /verif/bin/$n ./internal/verifh/cmd/$n || exit 1
+  ov=/verif/.work/overlay-$n.json
+  frags=""
+  if [ -f $d/instr.json ]; then
+    mkdir -p /verif/.work/instr/$n
+    /verif/bin/goinstr -repo /repo -out /verif/.work/instr/$n -config $d/instr.json > /verif/.work/instr/$n/goinstr.log || exit 1
+    frags=/verif/.work/instr/$n
+  fi
+  VERIF_OVERLAY_FRAGS=$frags python3 /verif/tools/mkoverlay.py $ov || exit 1
+  ( cd /repo && go build -tags verif -overlay $ov -o /verif/bin/$n ./internal/verifh/cmd/$n ) || exit 1
 done
 echo setup done
